@@ -28,6 +28,8 @@ type KeyedPRNG struct {
 func NewKeyedPRNG(key []byte) (*KeyedPRNG, error) {
 	var err error
 	prng := new(KeyedPRNG)
+	// Key() must return the key: keep a private copy (key=nil is stored as the empty key)
+	prng.key = append([]byte{}, key...)
 	prng.xof, err = blake2b.NewXOF(blake2b.OutputLengthUnknown, key)
 	return prng, err
 }
